@@ -318,6 +318,33 @@ func (e *Engine) VerifyFunction(fn *ssa.Function, con *Contract) (v *FV) {
 		o := &Obligation{Name: v.curFnKey + "#smoke", Kind: "smoke", Fn: v.curFnKey, Text: "some exit is reachable under the assumptions (vacuity guard)", Reach: "true", Goal: goal, ScriptLen: len(v.script), Expect: "sat"}
 		v.obls = append(v.obls, o)
 	}
+	if len(con.Focus) > 0 && v.quiet == 0 {
+		// thin contract: keep the obligations of the named clauses, the vacuity guards and the binding obligations
+		var kept []*Obligation
+		hits := map[string]int{}
+		dropped := 0
+		for _, o := range v.obls {
+			keep := o.Kind == "smoke" || o.Kind == "cover" || o.Kind == "spec"
+			for _, f := range con.Focus {
+				if strings.HasSuffix(o.Name, "."+f) || strings.Contains(o.Name, "."+f+".") {
+					keep = true
+					hits[f]++
+				}
+			}
+			if keep {
+				kept = append(kept, o)
+			} else {
+				dropped++
+			}
+		}
+		v.obls = kept
+		v.note("%s: thin contract (focus %s): %d other obligations of this function (no-panic, frame, other call sites) are generated but not claimed", v.curFnKey, strings.Join(con.Focus, " "), dropped)
+		for _, f := range con.Focus {
+			if hits[f] == 0 {
+				v.specError(Clause{File: con.File, Line: con.Line, Text: "focus " + f}, fmt.Errorf("focus %s matches no obligation of this function", f))
+			}
+		}
+	}
 	return v
 }
 
